@@ -97,6 +97,8 @@ type Input struct {
 	// MustResolve: every DocPath / FieldPath names a leaf of the document: the resolvers must succeed
 	// and the resolved path must have an existence proof
 	MustResolve bool `json:"must_resolve,omitempty"`
+	// TwinFirst: the print-twins of the member paths are queried BEFORE the members (else after)
+	TwinFirst bool `json:"twin_first,omitempty"`
 	DefaultFamily int `json:"default_family,omitempty"`
 	SetAfter      int `json:"set_after,omitempty"`
 }
@@ -448,10 +450,24 @@ func FixedInputs(hasher int, cfg bool, rng *rand.Rand) []Input {
  "staff": {"@id": "urn:org:alice", "@type": ["Employee", "Person"], "name": "Alice", "badge": 7}}`
 	in2 := Input{Doc: []byte(doc2), Hasher: hasher, Cfg: cfg, RngSeed: rng.Int63(), MustResolve: true,
 		DocPaths: []string{"title", "staff.name", "staff.badge"}}
+	// (3) an array-valued property `line` next to the property `line1`, `line0`; nested a.b next to nothing
+	ctx3 := map[string]any{"@version": 1.1,
+		"line":  map[string]any{"@id": v + "line", "@type": x + "string"},
+		"line0": map[string]any{"@id": v + "line0", "@type": x + "string"},
+		"line1": map[string]any{"@id": v + "line1", "@type": x + "integer"},
+		"box":   map[string]any{"@id": v + "box"},
+		"lid":   map[string]any{"@id": v + "lid", "@type": x + "string"}}
+	doc3 := map[string]any{"@context": ctx3, "@id": "urn:twins:1", "line": []any{"first", "second", "third"},
+		"line0": "not the first", "line1": 111, "box": map[string]any{"lid": "closed"}}
+	b3, _ := json.Marshal(doc3)
+	in3 := Input{Doc: b3, Hasher: hasher, Cfg: cfg, RngSeed: rng.Int63(), MustResolve: true,
+		DocPaths: []string{"line.0", "line.1", "line.2", "line0", "line1", "box.lid"}}
+	in4 := in3
+	in4.TwinFirst, in4.RngSeed = true, rng.Int63()
 	if !cfg {
-		in1.Hasher, in2.Hasher = 0, 0
+		in1.Hasher, in2.Hasher, in3.Hasher, in4.Hasher = 0, 0, 0, 0
 	}
-	return []Input{in1, in2}
+	return []Input{in1, in2, in3, in4}
 }
 
 // HVCase: one standalone merklize.HashValueWithHasher(h, datatype, value) call (integers only: no
@@ -478,6 +494,47 @@ func (c *HVCase) Coq(f *coqgen.File, id int) string {
 		o = "(VOk " + coqgen.Limbs(c.Out) + ")"
 	}
 	return fmt.Sprintf("mkv %d %s (mkrf [] [] []) %s (%s) %s", id, RhCoq(c.H, f), f.Str(c.DT), v, o)
+}
+
+// PrintTwins: distinct paths that PRINT alike (fmt.Sprint of the parts): an integer index k vs the
+// string part "k"; [.., P, k] vs [.., P+"k"]; [.., A, B] vs [.., A+B].
+func PrintTwins(parts []any) [][]any {
+	var out [][]any
+	for i, x := range parts {
+		if k, ok := x.(int); ok {
+			t := clone(parts)
+			t[i] = fmt.Sprint(k)
+			out = append(out, t)
+			if i > 0 {
+				if prev, isStr := parts[i-1].(string); isStr {
+					t2 := append(clone(parts[:i-1]), prev+fmt.Sprint(k))
+					out = append(out, append(t2, parts[i+1:]...))
+				}
+			}
+		}
+		if a, ok := x.(string); ok && i+1 < len(parts) {
+			if b, ok2 := parts[i+1].(string); ok2 {
+				t := append(clone(parts[:i]), a+b)
+				out = append(out, append(t, parts[i+2:]...))
+			}
+		}
+	}
+	return out
+}
+
+func (e *Env) twinQueries(s *Scen) {
+	seen := map[string]bool{}
+	for _, v := range s.Entries {
+		for _, t := range PrintTwins(v.Parts) {
+			k := fmt.Sprintf("%#v", t)
+			if seen[k] {
+				continue
+			}
+			seen[k] = true
+			e.Proof(s, 0, t, "print-twin")
+			e.EntryStep(s, 0, t)
+		}
+	}
 }
 
 // ArgSliceChecks: several Paths built from ONE argument slice that the caller keeps mutating
@@ -1359,6 +1416,9 @@ func (e *Env) c02Scenario(in Input) *Scen {
 	}
 	e.Rep.Count(fmt.Sprintf("hasher:%s cfg=%v", FamilyName(in.Hasher), in.Cfg))
 	e.RootStep(s)
+	if in.TwinFirst {
+		e.twinQueries(s)
+	}
 	// ALL member paths
 	for _, v := range s.Entries {
 		pk := 0
@@ -1372,6 +1432,8 @@ func (e *Env) c02Scenario(in Input) *Scen {
 		}
 		e.ArgSliceChecks(s, v.Parts)
 	}
+	// the print-twins again (or for the first time) after every member was looked up
+	e.twinQueries(s)
 	// non-member families
 	nm := e.NonMembers(s, e.Cfg.Pick(2, 4))
 	var fams []string
@@ -1536,7 +1598,7 @@ func Run(cfg *common.Config) (*common.Report, error) {
 		}
 		all := loadCtx(e.Loader, g)
 		hi := hs[cfg.Rng.Intn(len(hs))]
-		in := Input{Doc: doc.Bytes, Ctx: ctxFor(doc.Bytes, all), Hasher: hi, Cfg: i%3 != 0, DSLevel: i%4 == 1, RngSeed: cfg.Rng.Int63()}
+		in := Input{Doc: doc.Bytes, Ctx: ctxFor(doc.Bytes, all), Hasher: hi, Cfg: i%3 != 0, DSLevel: i%4 == 1, RngSeed: cfg.Rng.Int63(), TwinFirst: i%2 == 1}
 		if !in.Cfg {
 			in.Hasher = 0
 			switch (i / 3) % 3 {
